@@ -627,19 +627,27 @@ func ruleFloatFmt(c *Ctx, r *Report, fs []*FuncInfo) {
 				fmt.Sprintf("FormatFloat(fmt=%s, prec=%s, bitSize=%s) on a %s-bit value: must be 'f' (102), -1, %s — otherwise exponents appear or digits are lost", verb, prec, bits, want, want))
 		}
 	}
-	// writeIETFScalarJSON: float arm must not use fmt verbs.
-	if f := c.Func("ygot", "writeIETFScalarJSON"); f != nil {
+	// float arms of reflect kind dispatches that produce text (RFC7951 scalars, list key strings) must not use fmt verbs.
+	seenArm := map[ast.Node]bool{}
+	for _, f := range fs {
 		info := f.Info()
 		for _, sw := range KindSwitches(f, reflectKind) {
 			for _, k := range []string{"reflect.Float64", "reflect.Float32"} {
 				a := sw.ByKey[k]
-				if a == nil {
+				if a == nil || seenArm[a.Node] {
+					continue
+				}
+				seenArm[a.Node] = true
+				// only arms that render: they return or build a string.
+				renders := len(CallsIn(info, a.Node, "fmt.Sprintf", "fmt.Sprint", "fmt.Sprintln", "strconv.FormatFloat")) > 0
+				if !renders {
 					continue
 				}
 				n++
 				bad := len(CallsIn(info, a.Node, "fmt.Sprintf", "fmt.Sprint", "fmt.Sprintln")) > 0
 				ff := len(CallsIn(info, a.Node, "strconv.FormatFloat")) > 0
-				r.Check(!bad && ff, "ygot.writeIETFScalarJSON:"+k+":no-fmt-verb", c.Pos(a.Node.Pos()), "float arm uses strconv.FormatFloat only", "the float arm of writeIETFScalarJSON formats through fmt (%v/%g give exponents such as 1e+21) instead of strconv.FormatFloat(…,'f',-1,64)")
+				short := strings.TrimPrefix(f.Name, "")
+				r.Check(!bad && ff, short+":"+k+":no-fmt-verb", c.Pos(a.Node.Pos()), "float arm uses strconv.FormatFloat only", "the float arm of "+f.Name+" formats through fmt (%v/%g give exponents such as 1e+06 / 1e+21, which are not decimal64 lexical forms and differ from the plain decimal string of the same number) instead of strconv.FormatFloat(…,'f',-1,64)")
 			}
 		}
 	}
